@@ -170,6 +170,8 @@ def _scal_cfgs():
         for dtype in ("int64", "float64"):
             for ck in ("int", "float", "npfloat"):
                 out.append({"dim": dim, "m": 2, "dtype": dtype, "ck": ck})
+    out.append({"dim": 1, "m": 2, "dtype": "int16", "ck": "int"})        # a narrow integer histogram times a Python int widens (it must not wrap)
+    out.append({"dim": 1, "m": 2, "dtype": "float32", "ck": "float"})
     return out
 
 
